@@ -10,21 +10,35 @@ define("nointC(D, j, c)", "c < D[j, MIN] or c > D[j, MAX]")
 LO0 = f"pre(domains)[{N}, MIN]"
 HI0 = f"pre(domains)[{N}, MAX]"
 ROWS_SAME = ("P1.rows", f"forall(j, 0, {N}, domains[j, MIN] == old(domains)[j, MIN] and domains[j, MAX] == old(domains)[j, MAX])")
-propagator(REG, "nucs/propagators/element_lic_propagator.py::compute_domains_element_lic",
+# P5 (exact hull) for element_lic: a bound of i: (that index, l_index = c, the other l at their minimum); a bound of l_k: i at a supported end of its
+# output range other than k (k itself only when i is fixed to k, and then l_k = c), that l at c, l_k at the bound, the others at their minimum
+NIL = "result != PROP_INCONSISTENCY"
+GOODL = f"inbox(W, domains, n) and inbox(W, old(domains), n) and @R(W)"
+WI = lambda b: f"arr(j, n, ite(j == {N}, domains[{N}, {b}], ite(j == domains[{N}, {b}], {C}, domains[j, MIN])))"
+JSEL = f"ite(domains[{N}, MIN] != k, domains[{N}, MIN], domains[{N}, MAX])"
+WL = lambda b: f"arr(j, n, ite(j == {N}, {JSEL}, ite(j == {JSEL}, {C}, ite(j == k, domains[k, {b}], domains[j, MIN]))))"
+P5_LIC = [(f"P5.i_{b.lower()}", f"implies({NIL}, let(W, {WI(b)}, {GOODL} and W[{N}] == domains[{N}, {b}]))") for b in ("MIN", "MAX")] + \
+         [(f"P5.l_{b.lower()}", f"implies({NIL}, forall(k, 0, {N}, let(W, {WL(b)}, {GOODL} and W[k] == domains[k, {b}])))") for b in ("MIN", "MAX")]
+propagator(REG, "nucs/propagators/element_lic_propagator.py::compute_domains_element_lic", p5=P5_LIC,
     rel=f"exists(k, 0, n - 1, @T[n - 1] == k and @T[k] == {C})", n_min=2, requires=["m == 1", I32],
+    ghost_init={"rank": "@rank0"}, ghost={"rank0": "int[n]"}, ghost_modifies=["rank0"],
     loops={
-        1: dict(index="k", fingerprint="for range(i[MIN], i[MAX] + 1)", invariant=[
+        1: dict(index="k", fingerprint="for range(i[MIN], i[MAX] + 1)", also_modifies=["rank"],
+                ghost_updates={"rank": "arr(j, n, ite(j == idx and len(indices) != it0(len(indices)), it0(len(indices)), it0(rank)[j]))"}, invariant=[
             ROWS_SAME,
             ("P1.imax", f"domains[{N}, MAX] == {HI0} and 0 <= {LO0} and {HI0} <= {N} - 1 and old(domains)[{N}, MIN] <= {LO0} and {HI0} <= old(domains)[{N}, MAX]"),
             ("P2.imin", f"{LO0} <= domains[{N}, MIN] and domains[{N}, MIN] <= {LO0} + k"),
             ("P2.skipped", f"forall(j, {LO0}, domains[{N}, MIN], nointC(old(domains), j, {C}))"),
             ("P1.stop", f"implies(domains[{N}, MIN] < {LO0} + k, not (nointC(old(domains), domains[{N}, MIN], {C})))"),
             ("P2.list", f"forall(q, 0, len(indices), {LO0} <= indices[q] and indices[q] < {LO0} + k and nointC(old(domains), indices[q], {C}))"),
+            ("P5.sorted", "forall(a, 0, len(indices), forall(b, a + 1, len(indices), indices[a] > indices[b]))"),
+            ("P5.complete", f"forall(j, {LO0}, {LO0} + k, implies(nointC(old(domains), j, {C}), 0 <= rank[j] and rank[j] < len(indices) and indices[len(indices) - 1 - rank[j]] == j))"),
         ]),
         2: dict(index="q", fingerprint="for indices", invariant=[
             ROWS_SAME,
             ("P1.imin", f"domains[{N}, MIN] == pre(domains)[{N}, MIN]"),
             ("P2.imax", f"domains[{N}, MAX] == {HI0} - q"),
+            ("P5.prefix", f"forall(r, 0, q, indices[r] == {HI0} - r)"),
             ("P2.dropped", f"forall(j, domains[{N}, MAX] + 1, {HI0} + 1, nointC(old(domains), j, {C}))"),
             ("P1.above", f"implies(domains[{N}, MIN] <= {HI0} and not (nointC(old(domains), domains[{N}, MIN], {C})), domains[{N}, MAX] >= domains[{N}, MIN])"),
         ]),
